@@ -10,5 +10,15 @@ namespace Tea.Props.Bridge.C14
 theorem body_Program_Println : Tea.Gen.fact_body_Program_Println = Tea.Doc.fact_body_Program_Println := rfl
 theorem body_Program_Printf : Tea.Gen.fact_body_Program_Printf = Tea.Doc.fact_body_Program_Printf := rfl
 theorem locks : Tea.Gen.fact_locks = Tea.Doc.fact_locks := rfl
+theorem body_standardRenderer_render : Tea.Gen.fact_body_standardRenderer_render = Tea.Doc.fact_body_standardRenderer_render := rfl
+theorem body_standardRenderer_flush : Tea.Gen.fact_body_standardRenderer_flush = Tea.Doc.fact_body_standardRenderer_flush := rfl
+theorem body_standardRenderer_write : Tea.Gen.fact_body_standardRenderer_write = Tea.Doc.fact_body_standardRenderer_write := rfl
+theorem body_standardRenderer_repaint : Tea.Gen.fact_body_standardRenderer_repaint = Tea.Doc.fact_body_standardRenderer_repaint := rfl
+theorem body_standardRenderer_handleMessages : Tea.Gen.fact_body_standardRenderer_handleMessages = Tea.Doc.fact_body_standardRenderer_handleMessages := rfl
+theorem body_standardRenderer_stop : Tea.Gen.fact_body_standardRenderer_stop = Tea.Doc.fact_body_standardRenderer_stop := rfl
+theorem body_standardRenderer_kill : Tea.Gen.fact_body_standardRenderer_kill = Tea.Doc.fact_body_standardRenderer_kill := rfl
+theorem body_standardRenderer_clearScreen : Tea.Gen.fact_body_standardRenderer_clearScreen = Tea.Doc.fact_body_standardRenderer_clearScreen := rfl
+theorem body_standardRenderer_enterAltScreen : Tea.Gen.fact_body_standardRenderer_enterAltScreen = Tea.Doc.fact_body_standardRenderer_enterAltScreen := rfl
+theorem body_standardRenderer_exitAltScreen : Tea.Gen.fact_body_standardRenderer_exitAltScreen = Tea.Doc.fact_body_standardRenderer_exitAltScreen := rfl
 
 end Tea.Props.Bridge.C14
